@@ -520,21 +520,29 @@ theorem parse_assoc (a b c : Bs) (o1 o2 : Token) (h1 : 1 ≤ o1.tok.prec) (h2 : 
   have hat : ∀ n, (PE.atom (mkAtom n)).WF := fun _ => rfl
   have h5a := prec_le_five o1.tok
   have h5b := prec_le_five o2.tok
+  have e7a : Nat.blt 7 o1.tok.prec = false := blt_false (by omega)
+  have e7b : Nat.blt 7 o2.tok.prec = false := blt_false (by omega)
+  have e7c : Nat.blt 7 (o1.tok.prec + 1) = false := blt_false (by omega)
+  have e7d : Nat.blt 7 (o2.tok.prec + 1) = false := blt_false (by omega)
   by_cases hlt : o1.tok.prec < o2.tok.prec
-  · have := (climb fo (.bin o1 (.atom (mkAtom a)) (.bin o2 (.atom (mkAtom b)) (.atom (mkAtom c))))
-      ⟨h1, hat a, h2, hat b, hat c⟩).expr rest hs
-    have hn1 : decide (7 < o1.tok.prec) = false := decide_eq_false (by omega)
-    have hn2 : decide (o2.tok.prec < o1.tok.prec + 1) = false := decide_eq_false (by omega)
-    have hn3 : decide (7 < o2.tok.prec) = false := decide_eq_false (by omega)
-    have hn4 : decide (7 < o2.tok.prec + 1) = false := decide_eq_false (by omega)
-    simpa [PE.body, PE.ast, PE.level, PE.wrapT, PE.wrapA, hn1, hn2, hn3, hn4, hlt, decide_eq_true hlt, atomAst, mkAtom] using this
-  · have := (climb fo (.bin o2 (.bin o1 (.atom (mkAtom a)) (.atom (mkAtom b))) (.atom (mkAtom c)))
-      ⟨h2, ⟨h1, hat a, hat b⟩, hat c⟩).expr rest hs
-    have hn1 : decide (o1.tok.prec < o2.tok.prec) = false := decide_eq_false hlt
-    have hn2 : decide (7 < o1.tok.prec) = false := decide_eq_false (by omega)
-    have hn3 : decide (7 < o1.tok.prec + 1) = false := decide_eq_false (by omega)
-    have hn4 : decide (7 < o2.tok.prec + 1) = false := decide_eq_false (by omega)
-    simpa [PE.body, PE.ast, PE.level, PE.wrapT, PE.wrapA, hn1, hn2, hn3, hn4, hlt, atomAst, mkAtom] using this
+  · let e := PE.bin o1 (.atom (mkAtom a)) (.bin o2 (.atom (mkAtom b)) (.atom (mkAtom c)))
+    have hn : Nat.blt o2.tok.prec (o1.tok.prec + 1) = false := blt_false (by omega)
+    have hb : e.body ++ rest = mkAtom a :: o1 :: mkAtom b :: o2 :: mkAtom c :: rest := by
+      simp only [e, PE.body, PE.level, PE.wrapT, e7a, e7b, e7d, hn]; simp
+    have ha : e.ast = .bin o1.tok (.ident a) (.bin o2.tok (.ident b) (.ident c)) := by
+      simp only [e, PE.ast, PE.level, PE.wrapA, e7a, e7b, e7d, hn]; simp [atomAst, mkAtom]
+    have := (climb fo e ⟨h1, hat a, h2, hat b, hat c⟩).expr rest hs
+    rw [hb, ha] at this
+    simpa [hlt] using this
+  · let e := PE.bin o2 (.bin o1 (.atom (mkAtom a)) (.atom (mkAtom b))) (.atom (mkAtom c))
+    have hn : Nat.blt o1.tok.prec o2.tok.prec = false := blt_false hlt
+    have hb : e.body ++ rest = mkAtom a :: o1 :: mkAtom b :: o2 :: mkAtom c :: rest := by
+      simp only [e, PE.body, PE.level, PE.wrapT, e7a, e7c, e7d, hn]; simp
+    have ha : e.ast = .bin o2.tok (.bin o1.tok (.ident a) (.ident b)) (.ident c) := by
+      simp only [e, PE.ast, PE.level, PE.wrapA, e7a, e7c, e7d, hn]; simp [atomAst, mkAtom]
+    have := (climb fo e ⟨h2, ⟨h1, hat a, hat b⟩, hat c⟩).expr rest hs
+    rw [hb, ha] at this
+    simpa [hlt] using this
 
 /-- Unary operators bind stronger than every binary operator: `- a op b` is `(-a) op b`. -/
 theorem parse_unary_binds_tighter (a b : Bs) (u o : Token) (hu : isUnaryOp u.tok = true) (ho : 1 ≤ o.tok.prec)
@@ -543,24 +551,36 @@ theorem parse_unary_binds_tighter (a b : Bs) (u o : Token) (hu : isUnaryOp u.tok
       some (.bin o.tok (.un u.tok (.ident a)) (.ident b), rest) := by
   have hat : ∀ n, (PE.atom (mkAtom n)).WF := fun _ => rfl
   have h5 := prec_le_five o.tok
-  have := (climb fo (.bin o (.un u (.atom (mkAtom a))) (.atom (mkAtom b))) ⟨ho, ⟨hu, hat a⟩, hat b⟩).expr rest hs
-  have hn1 : decide (6 < o.tok.prec) = false := decide_eq_false (by omega)
-  have hn2 : decide (7 < o.tok.prec + 1) = false := decide_eq_false (by omega)
-  simpa [PE.body, PE.ast, PE.level, PE.wrapT, PE.wrapA, hn1, hn2, atomAst, mkAtom] using this
+  let e := PE.bin o (.un u (.atom (mkAtom a))) (.atom (mkAtom b))
+  have n1 : Nat.blt 6 o.tok.prec = false := blt_false (by omega)
+  have n2 : Nat.blt 7 (o.tok.prec + 1) = false := blt_false (by omega)
+  have n3 : Nat.blt 7 6 = false := by decide
+  have hb : e.body ++ rest = u :: mkAtom a :: o :: mkAtom b :: rest := by
+    simp only [e, PE.body, PE.level, PE.wrapT, n1, n2, n3]; simp
+  have ha : e.ast = .bin o.tok (.un u.tok (.ident a)) (.ident b) := by
+    simp only [e, PE.ast, PE.level, PE.wrapA, n1, n2, n3]; simp [atomAst, mkAtom]
+  have := (climb fo e ⟨ho, ⟨hu, hat a⟩, hat b⟩).expr rest hs
+  rw [hb, ha] at this
+  exact this
 
-/-- The ternary operator binds weakest and nests to the right: `a ? b : c ? d : e` is `a ? b : (c ? d : e)`,
-and a binary operator in the condition belongs to the condition. -/
+/-- The ternary operator binds weakest: a binary operator in front of `?` belongs to the condition. -/
 theorem parse_ternary_lowest (a b c d : Bs) (o : Token) (ho : 1 ≤ o.tok.prec) (rest : Toks) (hs : Stop0 rest) :
     run (parseExpr fo (mkAtom a :: o :: mkAtom b :: tkn .Question :: mkAtom c :: tkn .Colon :: mkAtom d :: rest)) =
       some (.cond (.bin o.tok (.ident a) (.ident b)) (.ident c) (.ident d), rest) := by
   have hat : ∀ n, (PE.atom (mkAtom n)).WF := fun _ => rfl
   have h5 := prec_le_five o.tok
-  have := (climb fo (.cond (.bin o (.atom (mkAtom a)) (.atom (mkAtom b))) (.atom (mkAtom c)) (.atom (mkAtom d)))
-    ⟨⟨ho, hat a, hat b⟩, hat c, hat d⟩).expr rest hs
-  have hn1 : decide (o.tok.prec < 1) = false := decide_eq_false (by omega)
-  have hn2 : decide (7 < o.tok.prec) = false := decide_eq_false (by omega)
-  have hn3 : decide (7 < o.tok.prec + 1) = false := decide_eq_false (by omega)
-  simpa [PE.body, PE.ast, PE.level, PE.wrapT, PE.wrapA, hn1, hn2, hn3, atomAst, mkAtom] using this
+  let e := PE.cond (.bin o (.atom (mkAtom a)) (.atom (mkAtom b))) (.atom (mkAtom c)) (.atom (mkAtom d))
+  have n1 : Nat.blt o.tok.prec 1 = false := blt_false (by omega)
+  have n2 : Nat.blt 7 o.tok.prec = false := blt_false (by omega)
+  have n3 : Nat.blt 7 (o.tok.prec + 1) = false := blt_false (by omega)
+  have hb : e.body ++ rest =
+      mkAtom a :: o :: mkAtom b :: tkn .Question :: mkAtom c :: tkn .Colon :: mkAtom d :: rest := by
+    simp only [e, PE.body, PE.level, PE.wrapT, n1, n2, n3]; simp
+  have ha : e.ast = .cond (.bin o.tok (.ident a) (.ident b)) (.ident c) (.ident d) := by
+    simp only [e, PE.ast, PE.level, PE.wrapA, n1, n2, n3]; simp [atomAst, mkAtom]
+  have := (climb fo e ⟨⟨ho, hat a, hat b⟩, hat c, hat d⟩).expr rest hs
+  rw [hb, ha] at this
+  exact this
 
 /-! ### The printed form of the operator fragment
 
